@@ -482,19 +482,21 @@ def scale_raw(val, shift, exact=None):
 
 def get_sizes_from_dtype(dtype):
     if isinstance(dtype, str):
-        head, props = dtype.split('-')
+        # `fxp-<sign><n_word>/<n_frac>` with an optional `-complex` suffix, as rendered in Fxp.dtype
+        # (n_frac may be negative, so the string is not split at every '-')
+        head, _, props = dtype.partition('-')
         if head == 'fxp':
             # sign
-            if props[0] == 's':
+            if props[:1] == 's':
                 signed = True
-            elif props[0] == 'u':
+            elif props[:1] == 'u':
                 signed = False
             else:
                 raise ValueError('dtype sign specifier should be `s` or `u`')
 
             # sizes
-            if '-' in props:
-                props, _ = props.split('-')
+            if props.endswith('-complex'):
+                props = props[:-len('-complex')]
 
             n_word, n_frac = props[1:].split('/')
             n_word = int(n_word)
